@@ -105,6 +105,15 @@ def run_impl(steps, limit=5.0):
                 break
         elif kind == 'state':
             obs.append(impl_state(w))
+        elif kind == 'read':
+            from . import c10
+            obs.append(c10.read_one(st[1]))
+        elif kind == 'print':
+            from wal.util import wal_str
+            try:
+                obs.append(('ok', wal_str(impl.parse(st[1]) if isinstance(st[1], str) else st[1])))
+            except BaseException as e:  # noqa: BLE001
+                obs.append(('other', type(e).__name__))
         elif kind == 'run':
             # Wal.run: evaluate as on a freshly started interpreter with the same traces at index 0
             import contextlib as _c
@@ -149,6 +158,10 @@ def model_lines(steps):
             lines.append(f'eval {st[1] or "-"} {FUEL} ' + wire.enc(ast))
         elif kind == 'state':
             lines.append('state')
+        elif kind == 'read':
+            lines.append(('read ' + hx(st[1])).rstrip())
+        elif kind == 'print':
+            lines.append('print ' + wire.enc(impl.parse(st[1]) if isinstance(st[1], str) else st[1]))
         elif kind == 'run':
             lines.append('#ignore runreset')
             lines.append(f'eval eor {FUEL} ' + wire.enc(impl.parse(st[1])))
@@ -185,6 +198,21 @@ def parse_reply(step, reply):
             return ('unsup', unhx(toks[1]) if len(toks) > 1 else '')
         if toks[0] == 'fuel':
             return ('fuel',)
+        return ('bad', reply)
+    if kind == 'read':
+        if toks[0] == 'ok':
+            v, _ = wire.dec(toks[1:])
+            return ('ok', v)
+        if toks[0] == 'perr':
+            return ('parse',)
+        if toks[0] == 'unsup':
+            return ('unsup', unhx(toks[1]) if len(toks) > 1 else '')
+        return ('bad', reply)
+    if kind == 'print':
+        if toks[0] == 'ok':
+            return ('ok', unhx(toks[1]) if len(toks) > 1 else '')
+        if toks[0] == 'unsup':
+            return ('unsup', 'print')
         return ('bad', reply)
     if kind == 'state':
         if toks[0] != 'st':
